@@ -444,4 +444,214 @@ Section Proofs.
         * destruct (rough ch); reflexivity.
         * apply nth_error_None in Ec. rewrite (Hlen x) in Ec by (eapply nth_error_In; eassumption). lia.
   Qed.
+  (* ---------------------------------------------------------------- centroid-only top-down:
+     CentroidCrop(return_crops = False) + FindInstancePeaksGroundTruth *)
+  Variable ginst : Type.
+  Variable gmatch : frame -> peak -> option ginst.
+  Notation centroid_table := (centroid_table frame peak detect value).
+  Notation row_matches := (row_matches frame peak ginst gmatch).
+  Notation gt_flat := (gt_flat frame peak ginst gmatch).
+  Notation gt_count := (gt_count ginst).
+  Notation pad_to := (pad_to ginst).
+  Notation gt_parse := (gt_parse ginst).
+  Notation centroid_only_batch := (centroid_only_batch frame peak detect value ginst gmatch).
+  Notation centroid_only_one := (centroid_only_one frame peak detect value ginst gmatch).
+
+  Lemma kept_nil : forall mi, kept mi [] = [].
+  Proof.
+    intros [k|]; simpl; [|reflexivity]. destruct (k <? 0)%nat eqn:K; [|reflexivity].
+    apply Nat.ltb_lt in K. lia.
+  Qed.
+
+  Theorem centroid_table_up_to_padding : forall mi xs,
+    length (centroid_table mi xs) = length xs /\
+    map (@somes peak) (centroid_table mi xs) = map (fun x => kept mi (detect x)) xs.
+  Proof.
+    intros mi xs. unfold Batch.centroid_table.
+    destruct (centroid_rows mi xs) as [rows|] eqn:E.
+    - apply centroid_rows_up_to_padding. exact E.
+    - split; [apply map_length|].
+      unfold Batch.centroid_rows in E.
+      destruct (flat_peaks 0%nat xs) as [|p0 rest] eqn:F; [|discriminate].
+      pose proof (proj1 (flat_nil_iff _ _) F) as Hall.
+      rewrite map_map. apply map_ext_in. intros x Hx.
+      rewrite somes_repeat_None, (Hall x Hx), kept_nil. reflexivity.
+  Qed.
+
+  Lemma row_matches_somes : forall img row,
+    row_matches img row = somes (map (gmatch img) (somes row)).
+  Proof.
+    intros img row. unfold Batch.row_matches. induction row as [|[p|] t IH]; simpl; [reflexivity| |exact IH].
+    destruct (gmatch img p); simpl; rewrite IH; reflexivity.
+  Qed.
+
+  Lemma gt_flat_ge : forall rows imgs s p, In p (gt_flat s rows imgs) -> (s <= fst p)%nat.
+  Proof.
+    induction rows as [|row rt IH]; intros imgs s p H; simpl in H; [contradiction|].
+    destruct imgs as [|img it]; [contradiction|].
+    apply in_app_or in H. destruct H as [H|H].
+    - apply in_map_iff in H. destruct H as [g [E _]]. subst. simpl. lia.
+    - specialize (IH _ _ _ H). lia.
+  Qed.
+
+  Lemma filter_none : forall (A : Type) (f : A -> bool) l, (forall a, In a l -> f a = false) -> filter f l = [].
+  Proof.
+    induction l as [|a t IH]; intros H; simpl; [reflexivity|].
+    rewrite (H a (or_introl eq_refl)). apply IH. intros b Hb. apply H. right. exact Hb.
+  Qed.
+
+  Lemma filter_all : forall (A : Type) (f : A -> bool) l, (forall a, In a l -> f a = true) -> filter f l = l.
+  Proof.
+    induction l as [|a t IH]; intros H; simpl; [reflexivity|].
+    rewrite (H a (or_introl eq_refl)). f_equal. apply IH. intros b Hb. apply H. right. exact Hb.
+  Qed.
+
+  Lemma pad_to_nil : forall M, pad_to M [] = repeat None M.
+  Proof.
+    intros M. unfold Batch.pad_to. simpl. destruct (Nat.ltb_spec 0 M).
+    - rewrite Nat.sub_0_r. reflexivity.
+    - assert (M = 0)%nat by lia. subst. reflexivity.
+  Qed.
+
+  (* the sequential parse (counts / parsed) returns to every sample the matches of its own row *)
+  Lemma gt_parse_gen : forall M rows imgs pre b,
+    length rows = length imgs ->
+    (forall p, In p pre -> (fst p < b)%nat) ->
+    gt_parse M (pre ++ gt_flat b rows imgs) (length pre) b (length imgs)
+    = map (fun r : list (option peak) * frame => pad_to M (row_matches (snd r) (fst r))) (combine rows imgs).
+  Proof.
+    intros M. induction rows as [|row rt IH]; intros imgs pre b Hl Hpre.
+    - destruct imgs; [reflexivity|discriminate].
+    - destruct imgs as [|img it]; [discriminate|]. simpl in Hl. injection Hl as Hl.
+      cbn [Batch.gt_flat length combine map fst snd Batch.gt_parse].
+      set (L := row_matches img row).
+      set (all := pre ++ map (pair b) L ++ gt_flat (S b) rt it).
+      assert (Hfilt : filter (fun p : nat * ginst => fst p =? b) all = map (pair b) L).
+      { unfold all. rewrite !filter_app.
+        rewrite (filter_none _ _ pre), (filter_all _ _ (map (pair b) L)), (filter_none _ _ (gt_flat (S b) rt it)).
+        - simpl. apply app_nil_r.
+        - intros p Hp. apply gt_flat_ge in Hp. apply Nat.eqb_neq. lia.
+        - intros p Hp. apply in_map_iff in Hp. destruct Hp as [g [E _]]. subst. simpl. apply Nat.eqb_refl.
+        - intros p Hp. specialize (Hpre _ Hp). apply Nat.eqb_neq. lia. }
+      assert (Hcnt : gt_count all b = length L).
+      { unfold Batch.gt_count. rewrite Hfilt, map_length. reflexivity. }
+      assert (Hrec : gt_parse M all (length pre + length L) (S b) (length it)
+                     = map (fun r : list (option peak) * frame => pad_to M (row_matches (snd r) (fst r))) (combine rt it)).
+      { unfold all. rewrite app_assoc.
+        replace (length pre + length L)%nat with (length (pre ++ map (pair b) L))
+          by (rewrite app_length, map_length; reflexivity).
+        apply IH; [exact Hl|].
+        intros p Hp. apply in_app_or in Hp. destruct Hp as [Hp|Hp].
+        - specialize (Hpre _ Hp). lia.
+        - apply in_map_iff in Hp. destruct Hp as [g [E _]]. subst. simpl. lia. }
+      destruct (existsb (fun p : nat * ginst => fst p =? b) all) eqn:Ex.
+      + rewrite Hcnt. f_equal; [|exact Hrec].
+        f_equal. unfold all. rewrite skipn_app, Nat.sub_diag, skipn_all. simpl.
+        rewrite firstn_app, map_length, Nat.sub_diag. simpl. rewrite app_nil_r.
+        rewrite <- (map_length (pair b) L) at 1. rewrite firstn_all, map_map. simpl. apply map_id.
+      + assert (HL : L = []).
+        { destruct L as [|g gt] eqn:EL; [reflexivity|]. exfalso.
+          assert (In (b, g) all) by (unfold all; apply in_or_app; right; apply in_or_app; left; left; reflexivity).
+          assert (existsb (fun p : nat * ginst => fst p =? b) all = true).
+          { apply existsb_exists. exists (b, g). split; [assumption|apply Nat.eqb_refl]. }
+          congruence. }
+        rewrite HL in *. rewrite pad_to_nil. f_equal. simpl in Hrec. rewrite Nat.add_0_r in Hrec. exact Hrec.
+  Qed.
+
+  Theorem gt_parse_is_per_row : forall M rows imgs, length rows = length imgs ->
+    gt_parse M (gt_flat 0%nat rows imgs) 0%nat 0%nat (length imgs)
+    = map (fun r : list (option peak) * frame => pad_to M (row_matches (snd r) (fst r))) (combine rows imgs).
+  Proof.
+    intros M rows imgs Hl. apply (gt_parse_gen M rows imgs [] 0%nat Hl). intros p [].
+  Qed.
+
+  Lemma combine_map_same : forall (A B C : Type) (f : A -> B) (g : A -> C) (l : list A),
+    combine (map f l) (map g l) = map (fun a => (f a, g a)) l.
+  Proof. induction l as [|a t IH]; simpl; [reflexivity|rewrite IH; reflexivity]. Qed.
+
+  (* the batch result, read up to the NaN padding of the centroid table, is the list of per-frame results *)
+  Theorem centroid_only_batch_is_per_frame : forall mi M (fs : list src),
+    map (fun r : nat * nat * list (option peak) * list (option ginst) =>
+           (fst (fst (fst r)), snd (fst (fst r)), somes (snd (fst r)), snd r))
+        (centroid_only_batch mi M fs)
+    = map (centroid_only_one mi M) fs.
+  Proof.
+    intros mi M fs. unfold Batch.centroid_only_batch.
+    destruct (centroid_table_up_to_padding mi (map (s_img frame) fs)) as [Hlen Hs].
+    set (rows := centroid_table mi (map (s_img frame) fs)) in *.
+    rewrite gt_parse_is_per_row by exact Hlen.
+    rewrite map_length in Hlen. rewrite map_map in Hs.
+    clearbody rows. revert rows Hlen Hs.
+    induction fs as [|s t IH]; intros rows Hlen Hs.
+    - reflexivity.
+    - destruct rows as [|row rt]; [discriminate|].
+      simpl in Hlen. injection Hlen as Hlen. simpl in Hs. injection Hs as Hrow Hs.
+      cbn [map combine fst snd]. f_equal; [|apply IH; assumption].
+      unfold Batch.centroid_only_one. rewrite row_matches_somes, Hrow. reflexivity.
+  Qed.
+
+  Theorem centroid_only_batch_length : forall mi M (fs : list src),
+    length (centroid_only_batch mi M fs) = length fs.
+  Proof.
+    intros. rewrite <- (map_length (centroid_only_one mi M) fs), <- centroid_only_batch_is_per_frame.
+    rewrite map_length. reflexivity.
+  Qed.
+
+  Lemma pad_to_length : forall M l, length (pad_to M l) = M.
+  Proof.
+    intros M l. unfold Batch.pad_to. destruct (Nat.ltb_spec (length l) M).
+    - rewrite app_length, map_length, repeat_length. lia.
+    - rewrite map_length, firstn_length. lia.
+  Qed.
+
+  Lemma somes_pad_to : forall M l, somes (pad_to M l) = firstn M l.
+  Proof.
+    intros M l. unfold Batch.pad_to. destruct (Nat.ltb_spec (length l) M).
+    - rewrite somes_app, somes_map_Some, somes_repeat_None, app_nil_r. rewrite firstn_all2; [reflexivity|lia].
+    - apply somes_map_Some.
+  Qed.
+  Definition strip_padding (r : nat * nat * list (option peak) * list (option ginst))
+    : nat * nat * list peak * list (option ginst) :=
+    (fst (fst (fst r)), snd (fst (fst r)), somes (snd (fst r)), snd r).
+
+  Theorem centroid_only_mates : forall mi M xs1 x xs2,
+    map strip_padding (centroid_only_batch mi M (xs1 ++ [x] ++ xs2))
+    = map strip_padding (centroid_only_batch mi M xs1) ++ map strip_padding (centroid_only_batch mi M [x])
+      ++ map strip_padding (centroid_only_batch mi M xs2).
+  Proof.
+    intros. unfold strip_padding. rewrite !centroid_only_batch_is_per_frame, !map_app. reflexivity.
+  Qed.
+
+  Theorem centroid_only_perm : forall mi M fs fs', Permutation fs fs' ->
+    Permutation (map strip_padding (centroid_only_batch mi M fs)) (map strip_padding (centroid_only_batch mi M fs')).
+  Proof.
+    intros. unfold strip_padding. rewrite !centroid_only_batch_is_per_frame. apply Permutation_map. assumption.
+  Qed.
+
+  (* record b of the batch output carries the indices of frame b and the matches of frame b's
+     own kept centroids with frame b's own labelled instances *)
+  Theorem centroid_only_indices : forall mi M fs b s,
+    nth_error fs b = Some s ->
+    exists row, nth_error (centroid_only_batch mi M fs) b
+                = Some (s_fidx frame s, s_vidx frame s, row,
+                        pad_to M (somes (map (gmatch (s_img frame s)) (kept mi (detect (s_img frame s))))))
+                /\ somes row = kept mi (detect (s_img frame s)).
+  Proof.
+    intros mi M fs b s Hb.
+    pose proof (centroid_only_batch_is_per_frame mi M fs) as E.
+    apply (f_equal (fun l => nth_error l b)) in E. rewrite !nth_error_map, Hb in E.
+    destruct (nth_error (centroid_only_batch mi M fs) b) as [[[[f v] row] pk]|] eqn:N; [|discriminate].
+    simpl in E. unfold Batch.centroid_only_one in E. injection E as E1 E2 E3 E4. subst.
+    exists row. split; [reflexivity|exact E3].
+  Qed.
+  Theorem centroid_only_stream_any_batch_size : forall mi M n (fs : list src), (0 < n)%nat ->
+    map strip_padding (centroid_only_stream frame peak detect value ginst gmatch mi M n fs)
+    = map (centroid_only_one mi M) fs.
+  Proof.
+    intros mi M n fs Hn. unfold Batch.centroid_only_stream.
+    rewrite <- (concat_chunks _ (length fs) n fs Hn (Nat.le_refl _)) at 3.
+    generalize (chunks (length fs) n fs). intros ls.
+    induction ls as [|l t IH]; simpl; [reflexivity|].
+    rewrite !map_app, IH. f_equal. unfold strip_padding. apply centroid_only_batch_is_per_frame.
+  Qed.
 End Proofs.
